@@ -382,7 +382,15 @@ func (g *cityGen) openPath(id b6.FeatureID) *fspec {
 // invalidPath returns a path spec that validation must reject, and why.
 func (g *cityGen) invalidPath(id b6.FeatureID) (*fspec, string) {
 	rc := g.rc
-	switch rc.Draw(4) {
+	switch rc.Draw(5) {
+	case 4:
+		// a ring whose closing vertex is there twice (degenerate last edge)
+		c := g.randRect()
+		s := &fspec{ID: id}
+		for _, p := range []int{c[0], c[1], c[2], c[3], c[0], c[0]} {
+			s.Path = append(s.Path, pathMember{Point: p})
+		}
+		return s, "ring that repeats its closing vertex"
 	case 0:
 		return &fspec{ID: id, Path: []pathMember{{Point: rc.Draw(maxPoints)}}}, "one-point path"
 	case 1:
